@@ -224,6 +224,16 @@ fn c34_menu() -> PhMenu {
         items.push((nm("RawCapture"), Instruction::RawCapture(RawCapture::new(false, f.clone(), one.clone(), MemoryReference::new("r".into(), 0)))));
         items.push((nm("Gate2"), Instruction::Gate(Gate::new("CNOT", vec![], vec![Qubit::Fixed(1), q.clone()], vec![GateModifier::Dagger]).unwrap())));
     }
+    // instructions holding BOTH placeholders, in either order (a resolver that declines one of them must
+    // still see the other)
+    for (a, b, tag) in [(2usize, 3usize, "12"), (3, 2, "21")] {
+        let (qa, qb) = (qs[a].clone(), qs[b].clone());
+        items.push((format!("GatePP({tag})"), Instruction::Gate(Gate::new("CNOT", vec![], vec![qa.clone(), qb.clone()], vec![]).unwrap())));
+        items.push((format!("FencePP({tag})"), Instruction::Fence(Fence::new(vec![qa.clone(), Qubit::Fixed(0), qb.clone()]))));
+        items.push((format!("DelayPP({tag})"), Instruction::Delay(Delay::new(one.clone(), vec![], vec![qa.clone(), qb.clone()]))));
+        items.push((format!("PulsePP({tag})"), Instruction::Pulse(Pulse::new(true, FrameIdentifier::new("f".into(), vec![qa.clone(), qb.clone()]), WaveformInvocation::new("w".into(), Default::default())))));
+        items.push((format!("SwapPhasesPP({tag})"), Instruction::SwapPhases(SwapPhases::new(FrameIdentifier::new("f".into(), vec![qa.clone()]), FrameIdentifier::new("g".into(), vec![qb.clone()])))));
+    }
     for (ti, t) in ts.iter().enumerate() {
         let nm = |s: &str| format!("{s}(t{ti})");
         items.push((nm("Label"), Instruction::Label(Label::new(t.clone()))));
@@ -425,13 +435,13 @@ pub static C34: PropDef = PropDef {
     id: "C34",
     level: "exploration",
     engine: "sweep",
-    rule: "every body of length <= 2 (thorough 3) over 76 instructions, and one step deeper over the label-only and a reduced qubit sub-menu: 13 qubit-bearing forms (gate, two-qubit modified gate, MEASURE, RESET, DELAY, FENCE, PULSE, CAPTURE, RAW-CAPTURE, SET-PHASE, SHIFT-FREQUENCY, SWAP-PHASES first / second frame) x qubit in {0, 1, P1, P2} and 4 label-bearing kinds (LABEL, JUMP, JUMP-WHEN, JUMP-UNLESS) x target in {a, a_0, a_1, T1(a), T2(a), T3(a_0)}; default resolution: nothing left, function, injective, avoids fixed qubits / labels of the body; custom resolvers: every subset of the 5 placeholders mapped -> exactly those replaced, with the returned values. non-trivial = body containing a placeholder",
+    rule: "every body of length <= 2 (thorough 3) over 86 instructions, and one step deeper over the label-only and a reduced qubit sub-menu: 13 qubit-bearing forms (gate, two-qubit modified gate, MEASURE, RESET, DELAY, FENCE, PULSE, CAPTURE, RAW-CAPTURE, SET-PHASE, SHIFT-FREQUENCY, SWAP-PHASES first / second frame) x qubit in {0, 1, P1, P2}, 5 forms holding both P1 and P2 in either order (gate, FENCE, DELAY, multi-qubit frame, SWAP-PHASES) and 4 label-bearing kinds (LABEL, JUMP, JUMP-WHEN, JUMP-UNLESS) x target in {a, a_0, a_1, T1(a), T2(a), T3(a_0)}; default resolution: nothing left, function, injective, avoids fixed qubits / labels of the body; custom resolvers: every subset of the 5 placeholders mapped -> exactly those replaced, with the returned values. non-trivial = body containing a placeholder",
     assumptions: &["independent syntactic walk over qubit- and label-bearing positions (mc/src/props/prog.rs quals/targ)"],
     run: |ctx| {
         let m = c34_menu();
         let l = ctx.tier.pick(2, 3);
         ctx.bound("menu", json!(m.items.iter().map(|x| x.0.clone()).collect::<Vec<_>>()));
-        let is_ph = |m: &PhMenu, k: usize| ["(q2)", "(q3)", "(t2)", "(t3)", "(t4)"].iter().any(|t| m.items[k].0.contains(t));
+        let is_ph = |m: &PhMenu, k: usize| ["(q2)", "(q3)", "(t2)", "(t3)", "(t4)", "PP("].iter().any(|t| m.items[k].0.contains(t));
         // sub-menus explored one step deeper: labels only, and a reduced qubit menu
         let label_items: Vec<usize> = (0..m.items.len()).filter(|k| m.items[*k].0.contains("(t")).collect();
         let qubit_items: Vec<usize> = (0..m.items.len()).filter(|k| ["Gate(", "Gate2(", "SetPhase(", "SwapPhases(", "SwapPhases2nd(", "Capture(", "RawCapture(", "Measure("].iter().any(|p| m.items[*k].0.starts_with(p))).collect();
